@@ -135,12 +135,15 @@ struct Case {
     iters: u32,
     assign: Vec<Option<usize>>,
     devs: Vec<DevCase>,
+    /// an EARLIER `init` on the same MainDevice against a network of this many (plain) devices, whatever its
+    /// outcome (too many devices -> Capacity error, fewer, more, none): the init under test must not depend on it
+    prior: Option<usize>,
 }
 
 impl Case {
     fn to_line(&self) -> String {
         format!(
-            "c09 {} {},{},{} {} {} {}",
+            "c09 {} {},{},{} {} {} {}{}",
             self.max_sub,
             self.caps[0],
             self.caps[1],
@@ -148,11 +151,12 @@ impl Case {
             self.iters,
             if self.assign.is_empty() { "-".to_string() } else { self.assign.iter().map(|a| a.map_or("u".to_string(), |g| g.to_string())).collect::<Vec<_>>().join(",") },
             if self.devs.is_empty() { "-".to_string() } else { self.devs.iter().map(|d| d.to_field()).collect::<Vec<_>>().join(";") },
+            self.prior.map_or(String::new(), |p| format!(" prior={p}")),
         )
     }
     fn from_line(line: &str) -> Option<Case> {
         let t: Vec<&str> = line.split(' ').collect();
-        if t.len() != 6 || t[0] != "c09" {
+        if !(t.len() == 6 || t.len() == 7) || t[0] != "c09" {
             return None;
         }
         let caps: Vec<usize> = t[2].split(',').filter_map(|x| x.parse().ok()).collect();
@@ -161,7 +165,8 @@ impl Case {
         }
         let assign = if t[4] == "-" { vec![] } else { t[4].split(',').map(|x| x.parse().ok()).collect() };
         let devs = if t[5] == "-" { vec![] } else { t[5].split(';').map(DevCase::from_field).collect::<Option<Vec<_>>>()? };
-        Some(Case { max_sub: t[1].parse().ok()?, caps: [caps[0], caps[1], caps[2]], iters: t[3].parse().ok()?, assign, devs })
+        let prior = t.get(6).and_then(|x| x.strip_prefix("prior=")).and_then(|x| x.parse().ok());
+        Some(Case { max_sub: t[1].parse().ok()?, caps: [caps[0], caps[1], caps[2]], iters: t[3].parse().ok()?, assign, devs, prior })
     }
 }
 
@@ -310,6 +315,16 @@ fn run_case(c: &Case, rep: &mut Report) {
     }
     let (mut net, md) = Net::new(seg, 16, 1128, Timeouts::default(), MainDeviceConfig { dc_static_sync_iterations: c.iters, ..Default::default() });
     net.step_limit = 2_000_000;
+    if let Some(n0) = c.prior {
+        // an earlier init of the same MainDevice against another network (result ignored), then the network
+        // under test is plugged in
+        let plain: Vec<DeviceDesc> = (0..n0).map(|i| DeviceDesc { name: Some(format!("P{i}")), ..DeviceDesc::default() }).collect();
+        let real = core::mem::replace(&mut net.seg, Segment::from_descs(&plain));
+        let prior_case = Case { max_sub: c.max_sub, caps: c.caps, iters: 0, assign: (0..n0).map(|i| Some(i % 3)).collect(), devs: vec![], prior: None };
+        let _ = dispatch(&mut net, md, &prior_case);
+        net.seg = real;
+        rep.hit("prior-init");
+    }
     let out = dispatch(&mut net, md, c);
 
     // ---- answer line
@@ -592,7 +607,8 @@ fn gen_case(rng: &mut Rng) -> Case {
     let used = rng.range(1, 3) as usize;
     let unknown = rng.chance(1, 25);
     let assign = (0..n).map(|_| if unknown && rng.chance(1, 4) { None } else { Some(rng.below(used as u64) as usize) }).collect();
-    Case { max_sub, caps, iters: *rng.pick(&[0u32, 1, 2, 3]), assign, devs: (0..n).map(|_| gen_dev(rng, n)).collect() }
+    let prior = if rng.chance(1, 3) { Some(*rng.pick(&[0usize, 1, max_sub, max_sub + 1, max_sub + 3, n + 1, n.saturating_sub(1)])) } else { None };
+    Case { max_sub, caps, iters: *rng.pick(&[0u32, 1, 2, 3]), assign, devs: (0..n).map(|_| gen_dev(rng, n)).collect(), prior }
 }
 
 fn corpus() -> Vec<Case> {
@@ -615,37 +631,37 @@ fn corpus() -> Vec<Case> {
         stale_al: 1,
     };
     // empty network
-    out.push(Case { max_sub: 2, caps: CAPS[0], iters: 0, assign: vec![], devs: vec![] });
-    out.push(Case { max_sub: 16, caps: CAPS[3], iters: 2, assign: vec![], devs: vec![] });
+    out.push(Case { max_sub: 2, caps: CAPS[0], iters: 0, assign: vec![], devs: vec![], prior: None });
+    out.push(Case { max_sub: 16, caps: CAPS[3], iters: 2, assign: vec![], devs: vec![], prior: None });
     // a single device of every kind
     for kind in 0..4u8 {
         let mut d = gen_dev(&mut rng, 1);
         d.kind = kind;
         d.p1 = 4;
         d.p2 = 2;
-        out.push(Case { max_sub: 2, caps: CAPS[0], iters: 1, assign: vec![Some(0)], devs: vec![d] });
+        out.push(Case { max_sub: 2, caps: CAPS[0], iters: 1, assign: vec![Some(0)], devs: vec![d], prior: None });
     }
     // exactly at, one above and two above the capacity, for every capacity
     for &m in &MAXES {
         for extra in 0..=2usize {
             let n = m + extra;
-            out.push(Case { max_sub: m, caps: CAPS[0], iters: 1, assign: (0..n).map(|i| Some(i % 3)).collect(), devs: (0..n).map(|_| gen_dev(&mut rng, n)).collect() });
+            out.push(Case { max_sub: m, caps: CAPS[0], iters: 1, assign: (0..n).map(|i| Some(i % 3)).collect(), devs: (0..n).map(|_| gen_dev(&mut rng, n)).collect(), prior: None });
         }
     }
     // every device carries the SAME stale address, which is also the first address init hands out
     for stale in [0x1000u16, 0x1001, 0x1003, 0] {
-        out.push(Case { max_sub: 4, caps: CAPS[0], iters: 0, assign: vec![Some(0); 4], devs: (0..4).map(|i| plain(&format!("D{i}"), stale)).collect() });
+        out.push(Case { max_sub: 4, caps: CAPS[0], iters: 0, assign: vec![Some(0); 4], devs: (0..4).map(|i| plain(&format!("D{i}"), stale)).collect(), prior: None });
     }
     // stale addresses are the assigned range in reverse order (device i holds what device n-1-i will get)
-    out.push(Case { max_sub: 8, caps: CAPS[0], iters: 0, assign: vec![Some(1); 6], devs: (0..6u16).map(|i| plain("R", 0x1000 + 5 - i)).collect() });
+    out.push(Case { max_sub: 8, caps: CAPS[0], iters: 0, assign: vec![Some(1); 6], devs: (0..6u16).map(|i| plain("R", 0x1000 + 5 - i)).collect(), prior: None });
     // shifted by one: device i holds what device i+1 will get (the case the comment in init describes)
-    out.push(Case { max_sub: 8, caps: CAPS[0], iters: 0, assign: vec![Some(0); 5], devs: (0..5u16).map(|i| plain("S", 0x1001 + i)).collect() });
+    out.push(Case { max_sub: 8, caps: CAPS[0], iters: 0, assign: vec![Some(0); 5], devs: (0..5u16).map(|i| plain("S", 0x1001 + i)).collect(), prior: None });
     // a group overflows although the network fits
-    out.push(Case { max_sub: 8, caps: CAPS[1], iters: 0, assign: vec![Some(0), Some(0), Some(2)], devs: (0..3).map(|i| plain(&format!("G{i}"), 0)).collect() });
+    out.push(Case { max_sub: 8, caps: CAPS[1], iters: 0, assign: vec![Some(0), Some(0), Some(2)], devs: (0..3).map(|i| plain(&format!("G{i}"), 0)).collect(), prior: None });
     // three groups on a MainDevice with room for two group ids
-    out.push(Case { max_sub: 2, caps: CAPS[0], iters: 0, assign: vec![Some(0), Some(1)], devs: (0..2).map(|i| plain(&format!("H{i}"), 7)).collect() });
+    out.push(Case { max_sub: 2, caps: CAPS[0], iters: 0, assign: vec![Some(0), Some(1)], devs: (0..2).map(|i| plain(&format!("H{i}"), 7)).collect(), prior: None });
     // unknown SubDevice
-    out.push(Case { max_sub: 4, caps: CAPS[0], iters: 0, assign: vec![Some(0), None, Some(1)], devs: (0..3).map(|i| plain(&format!("U{i}"), 0x2000)).collect() });
+    out.push(Case { max_sub: 4, caps: CAPS[0], iters: 0, assign: vec![Some(0), None, Some(1)], devs: (0..3).map(|i| plain(&format!("U{i}"), 0x2000)).collect(), prior: None });
     // no names at all, 8-byte SII, mailboxes, every DC flavour
     let mut devs = Vec::new();
     for (i, dc) in [DcCaps::NONE, DcCaps::REF_ONLY, DcCaps::BITS32, DcCaps::BITS64, DcCaps::REF_ONLY64].iter().enumerate() {
@@ -660,7 +676,10 @@ fn corpus() -> Vec<Case> {
         d.serial = i as u32;
         devs.push(d);
     }
-    out.push(Case { max_sub: 8, caps: CAPS[0], iters: 3, assign: vec![Some(2), Some(0), Some(1), Some(0), Some(2)], devs });
+    // an init that failed with Capacity (3 devices, capacity 2) must not spoil a later init of a fitting network
+    out.push(Case { max_sub: 2, caps: CAPS[0], iters: 0, assign: vec![Some(0), Some(1)], devs: (0..2).map(|i| plain(&format!("K{i}"), 0)).collect(), prior: Some(3) });
+    out.push(Case { max_sub: 4, caps: CAPS[0], iters: 0, assign: vec![Some(0); 3], devs: (0..3).map(|i| plain(&format!("L{i}"), 0)).collect(), prior: Some(1) });
+    out.push(Case { max_sub: 8, caps: CAPS[0], iters: 3, assign: vec![Some(2), Some(0), Some(1), Some(0), Some(2)], devs, prior: None });
     out
 }
 
